@@ -89,6 +89,34 @@ def run(tier):
         # a third of the glycans with the reducing-end anomer given by option: the tree stays what was written
         kw = {"root_orientation": r.choice("ab")} if len(items) % 3 == 1 else {}
         items.append({"iupac": T.render(t), "queries": sorted(set(qs)), "self": True, "subchains": subchains(t), "kw": kw})
+    # glycans with undetermined linkages contain themselves and their own sub-chains too (tree-level queries)
+    qitems = []
+    for t in trees[:(12 if tier == "quick" else 100)]:
+        tj = t.to_json()
+        cand = []
+        def walk_(j):
+            for k_ in j["kids"]:
+                cand.append(k_); walk_(k_[3])
+        walk_(tj)
+        if not cand:
+            continue
+        v = r.choice(cand)
+        if r.random() < 0.5:
+            v[0] = "?"
+        else:
+            v[2] = "?"
+        t2 = T.from_json(tj)
+        qitems.append({"iupac": T.render(t2), "queries": [], "self": True, "subchains": subchains(t2), "kw": {"tree_only": True}})
+    qouts = C.run_impl_parallel("queries", qitems, extra={"tmp": os.path.join(C.BUILD, "tmp_c16q")}) if qitems else []
+    for it_, o_ in zip(qitems, qouts):
+        report.case("undetermined:" + it_["iupac"], True)
+        if o_.get("exc"):
+            continue
+        if o_.get("self") and (any(isinstance(x, str) for x in o_["self"]) or min(o_["self"]) < 1):
+            report.fail({"site": "count", "kind": "self-not-contained", "linkage": "undetermined"}, {"glycan": it_["iupac"], "counts_of_itself": o_["self"]})
+        for q, (c1, c2) in o_.get("sub", {}).items():
+            if isinstance(c1, str) or isinstance(c2, str) or c1 < 1 or c2 < 1:
+                report.fail({"site": "count", "kind": "own-subchain-not-found", "linkage": "undetermined"}, {"glycan": it_["iupac"], "subchain": q, "counts": [c1, c2]})
     outs = C.run_impl_parallel("queries", items, extra={"tmp": os.path.join(C.BUILD, "tmp_c16")})
     # stand-alone molecules of the prefixed queries and of the residues they are derived from
     alone_names = sorted(set(prefixed) | set(prefixed.values()))
